@@ -16,7 +16,8 @@ import Gonuts.Model.WalletBooksDriver
 open Gonuts Gonuts.Model
 
 structure St where
-  mint : Model.Mint.Sess := {}
+  mint : Model.Mint.CSess := {}
+  wire : Model.WireDriver.WSt := {}
   books : Model.WalletBooksDriver.BSt := {}
 
 def u64? (s : Sexp) : Option UInt64 := do
@@ -55,8 +56,12 @@ def step (st : St) (line : String) : St × String :=
       | some out => (st, out.render)
       | none => (st, "(bad-op)")
     else if cmd.startsWith "mint." then
-      match Model.MintDriver.handle st.mint cmd args with
+      match Model.MintDriver.handleC st.mint cmd args with
       | some (m', out) => ({ st with mint := m' }, out.render)
+      | none => (st, "(bad-op)")
+    else if cmd.startsWith "wire." then
+      match Model.WireDriver.handleSt st.wire cmd args with
+      | some (w', out) => ({ st with wire := w' }, out.render)
       | none => (st, "(bad-op)")
     else if cmd.startsWith "books." then
       match Model.WalletBooksDriver.handleSt st.books cmd args with
@@ -68,7 +73,6 @@ def step (st : St) (line : String) : St × String :=
         else if cmd.startsWith "token." then Model.TokenDriver.handle cmd args
         else if cmd.startsWith "select." then Model.SelectDriver.handle cmd args
         else if cmd.startsWith "spec." then Model.SpecDriver.handle cmd args
-        else if cmd.startsWith "wire." then Model.WireDriver.handle cmd args
         else if cmd.startsWith "wallet." then Model.WalletDriver.handle cmd args
         else none
       match r with
